@@ -1,3 +1,4 @@
+from difflib import get_close_matches
 from typing import *  # necessary for eval()
 
 from pedantic.type_checking_logic.check_types import get_type_arguments
@@ -8,7 +9,9 @@ from pedantic.models.decorated_function import DecoratedFunction
 def _check_docstring(decorated_func: DecoratedFunction) -> None:
     doc = decorated_func.docstring
     err = decorated_func.err
-    context = {}
+    # a documented type is read as the author of the module reads it: the names of the module that defines the function (type
+    # aliases, type variables bound under another identifier, ...) first; the __name__s found in the annotations are added on top
+    context = dict(decorated_func.globals)
 
     _assert_docstring_is_complete(func=decorated_func)
 
@@ -140,7 +143,8 @@ def _parse_documented_type(type_: str, context: Dict[str, Any], err: str) -> Any
     try:
         return eval(type_, globals(), context)
     except NameError:
-        possible_meant_types = [t for t in context.keys() if isinstance(t, str)]
+        # the context also holds every name of the defining module: only names close to the documented one are worth a hint
+        possible_meant_types = get_close_matches(type_, [t for t in context.keys() if isinstance(t, str)], n=5, cutoff=0.5)
         if len(possible_meant_types) > 1:
             msg = f' Maybe you meant one of the following: {possible_meant_types}'
         elif len(possible_meant_types) == 1:
